@@ -14,6 +14,14 @@ CHECKS = {
    technique='stateless model checking of the real pthread code: deviation-bounded exhaustive DFS over schedules and write() faults under a cooperative scheduler (link-time --wrap), ASan stack-use-after-return as memory oracle',
    text='Every schedule (<=2 preemptions/faults quick, <=3 thorough on small pools) of every broadcast API x flag x caller x not-running-subset scenario is executed on the real threadpool sources and checked for exactly-once delivery on the right OS thread, true counts, SYNC return-after-last-callback, no access to the dead caller frame, done callback once/on originator/after all, one-by-one order and non-overlap.',
    note=E1_NOTE),
+ 'C05': dict(engine='E1-sched', category='model_checking', design='DESIGN.md 3, 9/C05',
+   technique='stateless model checking of the real pthread code: deviation-bounded exhaustive DFS over schedules and write() faults (EAGAIN/EPIPE/EBADF) under a cooperative scheduler (link-time --wrap)',
+   text='Every schedule and queue-write fault placement within the bound of multi-sender scenarios (external threads, pool threads, self-sends, the pool virtual thread; all direct-call flag sets; destination running / never started / stopped) is executed on the real pool; each send is checked for exactly-once delivery on the destination OS thread (or the allowed synchronous direct call), per-sender order, nothing fabricated.',
+   note=E1_NOTE + ' A send racing a real shutdown is represented by EPIPE/EBADF answers from write(), as the property lists it.'),
+ 'C11': dict(engine='E1-sched', category='model_checking', design='DESIGN.md 3, 9/C11',
+   technique='stateless model checking of the real pthread code: deviation-bounded exhaustive DFS over schedules of life-cycle scripts plus exhaustive single/double resource-failure injection (calloc, epoll_create1, pipe2, epoll_ctl, pthread_create) via link-time wrappers',
+   text='All contract-respecting life-cycle scripts (create / threads_create / attach_first / in-flight message, read event or timer / shutdown from outside, concurrently, from a worker / wait / destroy) are explored for termination, hook balance, no callback after destroy, descriptor / allocation / thread balance (ASan for use-after-free); every k-th resource failure during creation must fail cleanly.',
+   note=E1_NOTE),
  'C14': dict(engine='E4-enum', category='exploration', design='DESIGN.md 6, 9/C14',
    technique='small-scope exhaustive input enumeration of the real encoders/decoders against independent references (bounded exhaustive exploration)',
    text='All values of 8/16-bit integers and the boundary set of wider types, all byte strings up to length 2-3 plus structural alphabets through Base64/hex/XML/URL/CRC, each compared with an independent reference and round-tripped.',
